@@ -656,6 +656,9 @@ class Interp:
                     r = self.ndim_oracle(obj)
                 if r is not None:
                     return r
+            static = obj.meta.get("static_attrs") if isinstance(obj.meta, dict) else None
+            if static and name in static:
+                return static[name]  # a harness may fix configuration flags of an otherwise opaque object
             return T.mk("attr", (obj, name), origin=site)
         if isinstance(obj, (list, dict, tuple, str)):
             if name in ("append", "extend", "items", "keys", "values", "index", "copy", "get", "join", "format", "startswith", "endswith", "count", "insert", "pop"):
